@@ -44,7 +44,7 @@ type genResult struct {
 }
 
 func run(c *core.Ctx) int {
-	n := c.N(25000, 400000)
+	n := c.N(15000, 400000)
 	rng := core.NewRng(c.Seed, 1)
 	var cases []json.RawMessage
 	for i := 0; i < n; i++ {
@@ -215,6 +215,14 @@ func diffKind(a, b *wrun.Trace, idx int) string {
 		switch {
 		case strings.HasPrefix(e, "  state:"):
 			return "state"
+		case strings.HasPrefix(e, "  hcb: nested"):
+			if i := strings.Index(e, "-> "); i > 0 {
+				o := e[i+3:]
+				if strings.HasPrefix(o, "[") {
+					return "result"
+				}
+				return strings.ReplaceAll(o, " ", "_")
+			}
 		case strings.HasPrefix(e, "  host"), strings.HasPrefix(e, "  hcb"):
 			return "hostlog"
 		case strings.HasPrefix(e, "call "):
